@@ -65,6 +65,7 @@ func (p *Program) oraclesFor(prop string, fnKey string) []*ssa.Function {
 
 const oracleSupport = `
 var govcFailed string
+var govcTrace = os.Getenv("GOVC_TRACE") != ""
 
 type govcDiscard struct{}
 
@@ -283,7 +284,7 @@ func runOracles(o *CheckOpts, prog *Program, oracles []*ssa.Function, budgetS in
 		}
 	}
 	var sb strings.Builder
-	sb.WriteString(fmt.Sprintf("package %s\n\nimport (\n\t\"fmt\"\n\t\"math/rand\"\n\t\"reflect\"\n\t\"sort\"\n\t\"strings\"\n\t\"testing\"\n\t\"time\"\n", pkg.Name()))
+	sb.WriteString(fmt.Sprintf("package %s\n\nimport (\n\t\"fmt\"\n\t\"os\"\n\t\"math/rand\"\n\t\"reflect\"\n\t\"sort\"\n\t\"strings\"\n\t\"testing\"\n\t\"time\"\n", pkg.Name()))
 	for path, name := range imports {
 		sb.WriteString(fmt.Sprintf("\t%s %q\n", name, path))
 	}
@@ -309,6 +310,7 @@ func runOracles(o *CheckOpts, prog *Program, oracles []*ssa.Function, budgetS in
 			dumps = []string{"\"\""}
 		}
 		sb.WriteString("\t\t\tdesc := " + strings.Join(dumps, " + \"; \" + ") + "\n")
+		sb.WriteString(fmt.Sprintf("\t\t\tif govcTrace {\n\t\t\t\tfmt.Printf(\"GOVC-TRY oracle=%s iter=%%d\\nGOVC-TRY-INPUT %%s\\n\", iter, desc)\n\t\t\t}\n", fn.Name()))
 		sb.WriteString("\t\t\tgovcFailed = \"\"\n")
 		sb.WriteString(fmt.Sprintf("\t\t\tpan := govcRun(func() { %s(%s) })\n", fn.Name(), strings.Join(args, ", ")))
 		sb.WriteString("\t\t\tcases++\n\t\t\tif govcFailed == \"discard\" {\n\t\t\t\tdiscarded++\n\t\t\t} else if govcFailed != \"\" || pan != nil {\n")
@@ -321,6 +323,40 @@ func runOracles(o *CheckOpts, prog *Program, oracles []*ssa.Function, budgetS in
 		os.WriteFile(filepath.Join(d, "oracle_test.go"), []byte(sb.String()), 0o644)
 	}
 	out, err := rc.runInPackageTestWithMarkers(pkg, sb.String(), fmt.Sprintf(oracleMarkers, pkg.Name()), "^TestGovcOracle$", budgetS+60)
+	if err != nil && !strings.Contains(out, "GOVC-CEX") && (strings.Contains(out, "panic:") || strings.Contains(out, "fatal error:")) {
+		// the process crashed (e.g. a panic in a goroutine the oracle cannot recover): rerun with tracing
+		// (same seed, same sequence) to identify the input that was being tried
+		os.Setenv("GOVC_TRACE", "1")
+		out2, _ := rc.runInPackageTestWithMarkers(pkg, sb.String(), fmt.Sprintf(oracleMarkers, pkg.Name()), "^TestGovcOracle$", budgetS+60)
+		os.Unsetenv("GOVC_TRACE")
+		h := &oracleHit{Where: "process crash"}
+		lines := strings.Split(out2, "\n")
+		for i, l := range lines {
+			if strings.HasPrefix(l, "GOVC-TRY oracle=") {
+				f := strings.Fields(strings.TrimPrefix(l, "GOVC-TRY "))
+				for _, kv := range f {
+					if strings.HasPrefix(kv, "oracle=") {
+						h.Oracle = strings.TrimPrefix(kv, "oracle=")
+					}
+					if strings.HasPrefix(kv, "iter=") {
+						h.Iter = strings.TrimPrefix(kv, "iter=")
+					}
+				}
+				if i+1 < len(lines) && strings.HasPrefix(lines[i+1], "GOVC-TRY-INPUT ") {
+					h.Input = strings.TrimPrefix(lines[i+1], "GOVC-TRY-INPUT ")
+				}
+			}
+		}
+		ci := strings.Index(out, "panic:")
+		if ci < 0 {
+			ci = strings.Index(out, "fatal error:")
+		}
+		h.Output = truncate(out[ci:], 2500)
+		if h.Oracle != "" {
+			return h, ""
+		}
+		return nil, "oracle run crashed: " + truncate(out, 1500)
+	}
 	if err != nil && !strings.Contains(out, "GOVC-") {
 		return nil, "oracle run failed: " + err.Error() + ": " + truncate(out, 1500)
 	}
@@ -355,4 +391,50 @@ func runOracles(o *CheckOpts, prog *Program, oracles []*ssa.Function, budgetS in
 		}
 	}
 	return nil, "oracle run produced no verdict: " + truncate(out, 1500)
+}
+
+func runOracleCmd(prop, repo, verif string, budget int, only string) int {
+	pc, err := loadPropConfig(verif, prop)
+	if err != nil {
+		fmt.Println("ERROR:", err)
+		return 2
+	}
+	spec, err := loadSpecs(verif, pc.Spec)
+	if err != nil {
+		fmt.Println("ERROR:", err)
+		return 2
+	}
+	prog, err := loadProgram(repo, verif, pc.Pkgs)
+	if err != nil {
+		fmt.Println("ERROR:", err)
+		return 2
+	}
+	prog.Spec = spec
+	seed := 0
+	fmt.Sscanf(os.Getenv("VERIF_SEED"), "%d", &seed)
+	o := &CheckOpts{Prop: prop, Repo: repo, Verif: verif, Seed: seed}
+	rc := 0
+	for key, c := range prog.Contracts {
+		if !c.Oracle || (only != "" && !strings.Contains(key, only)) {
+			continue
+		}
+		has := false
+		for _, p := range c.Props {
+			if p == prop {
+				has = true
+			}
+		}
+		fn := prog.Funcs[key]
+		if !has || fn == nil {
+			continue
+		}
+		hit, why := runOracles(o, prog, []*ssa.Function{fn}, budget)
+		if hit != nil {
+			fmt.Printf("ORACLE-FAIL %s at %s\n  input: %s\n  %s\n", hit.Oracle, hit.Where, truncate(hit.Input, 1500), truncate(hit.Output, 600))
+			rc = 1
+		} else {
+			fmt.Printf("oracle %s: %s\n", fn.Name(), why)
+		}
+	}
+	return rc
 }
